@@ -457,7 +457,12 @@ def write_evidence(pid, tier, seed, coverage, wall, violations, assumptions):
     return path
 
 
+REPLAY_META = {}
+
+
 def write_replay(pid, payload):
+    payload = dict(payload)
+    payload.setdefault('run', dict(REPLAY_META))      # seed and tier: a history or schedule is reproduced by the same run
     d = os.path.join(BUILD, 'replay')
     os.makedirs(d, exist_ok=True)
     blob = json.dumps(payload, sort_keys=True, default=str, indent=1)
